@@ -251,8 +251,11 @@ type Exec struct {
 	lastNow     *smt.Term
 	panics      []*frame // frames currently running defers because of a panic
 	ghost       map[string]interface{}
-	goq         []pendingGo
-	inGo        bool
+	threads     []*thread
+	cur         *thread
+	thrSeq      int
+	explore     bool
+	preemptLeft int
 	guards      []guardLevel
 	mlog        []mlogRec
 	pendingEval *smt.Evaluator
@@ -362,8 +365,11 @@ func (ex *Exec) RunPath(fn *ssa.Function, trail []uint64) (alts [][]uint64) {
 	ex.lastNow = nil
 	ex.panics = nil
 	ex.ghost = map[string]interface{}{}
-	ex.goq = nil
-	ex.inGo = false
+	ex.threads = nil
+	ex.cur = nil
+	ex.thrSeq = 0
+	ex.explore = false
+	ex.preemptLeft = 0
 	ex.guards = nil
 	ex.mlog = nil
 	ex.eval = smt.NewEvaluator(map[*smt.Term]uint64{})
@@ -379,9 +385,10 @@ func (ex *Exec) RunPath(fn *ssa.Function, trail []uint64) (alts [][]uint64) {
 		ex.stats.PathWall += time.Since(wall0)
 		ex.stats.Queries += ex.solver.Queries - q0
 		ex.stats.SolverTime += ex.solver.Time - t0
+		r := recover()
+		ex.killThreads()
 		ex.rollback()
 		alts = ex.pending
-		r := recover()
 		if r == nil {
 			ex.stats.PathsDone++
 			if ex.cfg.Inputs != nil && len(ex.traces) > 0 {
